@@ -175,6 +175,12 @@ def _run(V, work, tier):
         forms = P.shape_program(rnd, wide=True, raise_p=0.2, err_kinds=True, maxn=4)
         recs.append(mach.prog_record("m%d" % i, [forms], {}))
         mdrv.append({"id": "m%d" % i, "seq": [P.src(forms)], "cfg": {}})
+    import mix
+    for i in range(120 if thorough else 30):
+        forms = mix.mix_program(rnd, depth=4) if i % 2 else mix.mix_fail_program(rnd)
+        recs.append(mach.prog_record("mx%d" % i, [forms], {}))
+        mdrv.append({"id": "mx%d" % i, "seq": [P.src(forms)], "cfg": {}})
+    nm = len(recs)
     model, res = mach.run_machine(work, recs, timeout=3300)
     V.tlc(res, "Machine: %d programs, determinism (out-degree)" % nm)
     if res.violated:
